@@ -4,6 +4,22 @@ seeded/*/meta.json and seeded/RESULTS.md."""
 import json, glob, os, re
 
 NOTES = {
+ "C01-19": "missed at first (needs a lock address that sorts before its owner's and an owner record that holds nothing): in balance-emptied-accounts two of the three lock addresses now sort before every owner, zero-amount transfers added",
+ "C01-20": "missed at first: the all-zero hash as receiver and as mint target",
+ "C02-19": "missed at first: a contract that refuses payments (its onNEP17Payment faults) as receiver",
+ "C03-19": "missed at first: row 'subscribeForNewEpoch(caller) called by the would-be subscriber itself' (a contract anybody can deploy)",
+ "C07-20": "missed at first (the trigger is a network setting): setConfig(MaintenanceModeAllowed, 0/1) is part of the candidate exploration",
+ "C08-19": "missed at first: every fifth epoch of the histories is published with nobody in it (an empty map has to overwrite what its ring slot held)",
+ "C09-19": "missed at first: a lock made from a lock account, the inner address sorting before the outer one, both due at one tick",
+ "C12-19": "missed at first: a CNAME target in fully qualified form (trailing dot) must be refused",
+ "C12-20": "missed at first: a TXT value that the alias holds too (resolve lists both)",
+ "C13-21": "not reported: in the harness the leader's regeneration loop after its 150-round absence lasts about 20 rounds and ends, every run terminates with the oracle satisfied (the statement demands termination, not a duration); the sub-agent's demonstration, on a chain with sockets between the members, never leaves the loop. The schedules it needs (a member cancelled 1..10 rounds before the designation and restarted 150 rounds later) are now in the quick tier",
+ "C14-19": "missed at first: epoch ticks (through Netmap and Container's own handler) between batches and before the commit",
+ "C16-23": "missed at first: the recorded NNS dump updated eight years after the chain's start (names and top-level names run out)",
+ "C17-19": "missed at first: fifth exploration neofs-votes-callers, votes forwarded by a contract that assembles the decision id from two halves (a Buffer)",
+ "C17-20": "missed at first: in the same exploration a cheque whose payee is a contract that presents the cheque again from its payment callback",
+ "C19-20": "missed at first: a 20-byte receiver that begins with the two bytes of the contract's own fee marker, and a 3-byte value that begins like it",
+ "C20-19": "missed at first: the container is removed while estimations for it are fresh",
  "C02-17": "missed at first: the data argument of the public transfer was always null; byte string, integer and array added under every signer set",
  "C02-18": "missed by C02 at first (C01 had the call): payments into a live lock account and into the address the next lock will use",
  "C06-17": "missed at first (needs an empty candidate set on a ring slot that holds an older map: 13 steps with ten maps): fourth exploration netmap-tick-short-history on a Netmap that keeps two maps",
